@@ -590,15 +590,17 @@ pub fn run(ctx: &Ctx) -> Report {
   // (params, model depth, conformance depth)
   let plan: Vec<(Params, usize, usize)> = if ctx.thorough() {
     vec![
-      (Params { interval: 1, max_savepoints: 1, commit_interval: 5000 }, 7, 5),
-      (Params { interval: 2, max_savepoints: 2, commit_interval: 5000 }, 7, 5),
-      (Params { interval: 3, max_savepoints: 2, commit_interval: 5000 }, 6, 5),
-      (Params { interval: 2, max_savepoints: 3, commit_interval: 5000 }, 6, 4),
-      (Params { interval: 3, max_savepoints: 3, commit_interval: 2 }, 6, 4),
-      (Params { interval: 4, max_savepoints: 2, commit_interval: 5000 }, 6, 5),
-      (Params { interval: 4, max_savepoints: 2, commit_interval: 3 }, 6, 4),
-      (Params { interval: 5, max_savepoints: 2, commit_interval: 5000 }, 6, 4),
-      (Params { interval: 10, max_savepoints: 2, commit_interval: 5000 }, 6, 4),
+      (Params { interval: 1, max_savepoints: 1, commit_interval: 5000 }, 8, 6),
+      (Params { interval: 1, max_savepoints: 2, commit_interval: 5000 }, 8, 6),
+      (Params { interval: 2, max_savepoints: 2, commit_interval: 5000 }, 8, 7),
+      (Params { interval: 2, max_savepoints: 2, commit_interval: 1 }, 7, 6),
+      (Params { interval: 3, max_savepoints: 2, commit_interval: 5000 }, 7, 6),
+      (Params { interval: 2, max_savepoints: 3, commit_interval: 5000 }, 7, 5),
+      (Params { interval: 3, max_savepoints: 3, commit_interval: 2 }, 7, 5),
+      (Params { interval: 4, max_savepoints: 2, commit_interval: 5000 }, 7, 6),
+      (Params { interval: 4, max_savepoints: 2, commit_interval: 3 }, 7, 5),
+      (Params { interval: 5, max_savepoints: 2, commit_interval: 5000 }, 7, 5),
+      (Params { interval: 10, max_savepoints: 2, commit_interval: 5000 }, 7, 5),
     ]
   } else {
     vec![
